@@ -25,6 +25,7 @@ from harness.framework import canon
 from harness import webstatic_driver as W
 
 TREES = []
+SPELLS = ["plain", "trailing", "dotted", "dotdot", "relative"]     # how the handler's root is spelled
 
 
 def _trees():
@@ -43,14 +44,14 @@ def _sig(method, raw, exp, obs, extra):
     d = [u % 256 for u in raw]
     return {"act": "request", "method": method, "exp_kind": exp["kind"], "obs_kind": obs["kind"],
             "has_dotdot": ".." in "".join(chr(c) for c in d), "absolute": bool(d) and d[0] == 47,
-            "has_nul": 0 in d}
+            "has_nul": 0 in d, "spell": extra["cfg"].get("spell", "plain")}
 
 
-def observe(dflt, method, raw):
+def observe(dflt, method, raw, spell="plain"):
     """Run one request on both trees; returns (obs_with_outside, code, obs_without, code2)."""
     ts = _trees()
-    o1, c1 = W.project_static(method, W.static_request(ts.root[True], dflt, method, raw[True]))
-    o2, c2 = W.project_static(method, W.static_request(ts.root[False], dflt, method, raw[False]))
+    o1, c1 = W.project_static(method, W.static_request(ts.root[True], dflt, method, raw[True], spell=spell))
+    o2, c2 = W.project_static(method, W.static_request(ts.root[False], dflt, method, raw[False], spell=spell))
     return o1, c1, o2, c2
 
 
@@ -59,7 +60,7 @@ def replayer(extra, path):
     ts = _trees()
     for i, s in enumerate(path):
         method, raw = s["args"]
-        o1, c1, o2, c2 = observe(cfg["dflt"], method, {True: ts.subst(raw, True), False: ts.subst(raw, False)})
+        o1, c1, o2, c2 = observe(cfg["dflt"], method, {True: ts.subst(raw, True), False: ts.subst(raw, False)}, cfg.get("spell", "plain"))
         exp = s["exp"]
         for obs, which in ((o1, "with"), (o2, "without")):
             if obs != exp:
@@ -94,7 +95,8 @@ def random_trace(args):
     ts = _trees()
     outside = rng.random() < 0.5
     dflt = rng.random() < 0.5
-    cfg = {"dflt": dflt, "outside": outside}
+    spell = rng.choice(["plain", "trailing", "dotted", "dotdot", "relative"])
+    cfg = {"dflt": dflt, "outside": outside, "spell": spell}
     ev = []
     for _ in range(length):
         k = rng.choice([0, 1, 1, 2, 2, 3, 3, 4, 5, 6, 8])
@@ -122,7 +124,7 @@ def random_trace(args):
                     out.extend(sg)
             raws[which] = out
         method = rng.choice(["GET", "GET", "HEAD"])
-        o1, c1, o2, c2 = observe(dflt, method, raws)
+        o1, c1, o2, c2 = observe(dflt, method, raws, spell)
         obs, twin = (o1, o2) if outside else (o2, o1)
         code, code2 = (c1, c2) if outside else (c2, c1)
         ev.append({"a": "request", "args": [method, raws[outside]], "obs": obs, "twin": twin, "code": code, "code2": code2})
@@ -139,24 +141,27 @@ def run(ctx):
         t0 = time.time()
         # the core alphabet at full length, the long-tail tokens one token shorter
         paths = W.mc_states(ctx, "webstatic", "StaticPath", "MC_StaticPath.cfg",
-                            overrides={"GenToks": set(toks_q), "PathLen": L}, required_actions=["request"])
+                            overrides={"GenToks": set(toks_q), "PathLen": L, "Methods": set(ctx.pick(["GET"], ["GET", "HEAD"]))},
+                            required_actions=["request"])
         ctx.replay(paths, replayer, nontrivial=nt)
         paths2 = W.mc_states(ctx, "webstatic", "StaticPath", "MC_StaticPath.cfg",
-                             overrides={"GenToks": set(toks_all), "PathLen": L - 1}, required_actions=["request"])
+                             overrides={"GenToks": set(toks_all), "PathLen": L - 1,
+                                        "Spells": set(ctx.pick(["plain", "trailing", "relative"], SPELLS))}, required_actions=["request"])
         ctx.replay(paths2, replayer, nontrivial=nt)
         ctx._phase("mc+s2c", t0)
         ctx.cov["exhaustive"] = True
-        n = ctx.pick(300, 4000)
-        jobs = [(i + 1, ctx.seed * 1000003 + i, 25) for i in range(n)]
+        n = ctx.pick(200, 4000)
+        jobs = [(i + 1, ctx.seed * 1000003 + i, ctx.pick(20, 25)) for i in range(n)]
         t0 = time.time()
         traces = framework.pool_map(random_trace, jobs)
         ctx.validate("webstatic", "Trace_StaticPath", "Trace_StaticPath.cfg", traces, shards=ctx.pick(2, None),
                      overrides={"RootName": W.enc_name(_trees().name), "SideW": W.enc_name("w"), "SideN": W.enc_name("n")},
-                     sig_fn=lambda t, bad, l: {"method": bad["args"][0], "obs_kind": bad["obs"]["kind"],
+                     timeout=ctx.pick(900, 1500),
+                     sig_fn=lambda t, bad, l: {"spell": t["cfg"]["spell"], "method": bad["args"][0], "obs_kind": bad["obs"]["kind"],
                                                "twin_kind": bad["twin"]["kind"], "codes": [bad["code"], bad["code2"]]} if bad else {})
         ctx._phase("c2s", t0)
-        ctx.cov["rule"] = ("requests: every path of <= %d tokens over the 14-token core alphabet (<= %d over all 23 tokens) x GET/HEAD x default_filename on/off, each "
-                           "on the tree with and without files outside the root; random recorded request sequences (25 requests "
+        ctx.cov["rule"] = ("requests: every path of <= %d tokens over the 14-token core alphabet (<= %d over all 23 tokens) x default_filename on/off (the shorter paths also x HEAD and x spellings of the configured root: trailing '/', relative, './', 'sub/..'), each "
+                           "on the tree with and without files outside the root; random recorded request sequences (20-25 requests "
                            "each, paths of <= 8 segments with per-character escapes); distinct = distinct (config, method, path); "
                            "non-trivial = non-empty path" % (L, L - 1))
         ctx.cov["trusted_base"] += ["harness/httpsim.split_responses (transport splitter)", "real file system under /tmp (scratch tree)"]
